@@ -65,10 +65,10 @@ def scan(text, keep_comments=True):
             continue
         if ch == "/" and text.startswith("/*", i):
             j = text.find("*/", i + 2)
-            if j < 0:
-                raise ScanError(f"unterminated /* at {line}")
-            add("ccomment", j + 2)
-            continue
+            if j >= 0:
+                add("ccomment", j + 2)
+                continue
+            # "/*" that is never closed is not a comment (the repository's tests pin EXPRESSION /*1/ as a regex)
         if ch in "\"'":
             j = i + 1
             while j < n:
